@@ -191,6 +191,54 @@ def rule_b(ctx):
             else 'a keepalive task is not started with the connection (%s)' % sorted(started))
 
 
+def rule_c(ctx):
+    """Every connection gets its keepalive emitter: the sender hook starts one on every path, or skips it only behind a
+    test of the attribute holding the task that the end of the previous connection is certain to have reset."""
+    rep = ctx.report
+    slots = ctx.slots
+    C = slots.RSocketClient
+    bs = C.lookup('_before_sender')
+    if bs is None or bs.cls is slots.RSocketBase:
+        raise AnalysisError('C15.c: RSocketClient._before_sender vanished')
+    ok = True
+    why = ''
+    n = n_spawn = 0
+    for p in ctx.paths(bs, C, inline_depth=2):
+        if p.outcome != 'return':
+            continue
+        n += 1
+        spawned = [e for e in p.events if e.kind == 'call' and str(e.data.get('name', '')).endswith('create_task')]
+        if spawned:
+            n_spawn += 1
+            continue
+        guards = [c for c in p.events if c.kind == 'cond' and c.data['key'][0] == 'isnone' and
+                  strip_epoch(c.data['key'][1])[0] == 'attr' and strip_epoch(c.data['key'][1])[1] == ('self',)]
+        closing = [c for c in p.events if c.kind == 'cond' and '_is_closing' in repr(c.data['key'])]
+        if closing and not guards:
+            continue  # not started because the socket is closing: nothing to keep alive
+        if not guards or guards[-1].data['value'] is not False:
+            ok, why = False, 'a path of the sender hook starts no keepalive emitter'
+            continue
+        attr = strip_epoch(guards[-1].data['key'][1])[2]
+        # the attribute is back to None whenever a connection has ended
+        reset_somewhere = False
+        for name in ('_finally_sender', '_stop_tasks'):
+            g = C.lookup(name)
+            if g is None:
+                continue
+            ps = [q for q in ctx.paths(g, C, inline_depth=2, no_inline={'cancel_if_task_exists'})
+                  if q.outcome == 'return']
+            if ps and all(any(e.kind == 'store' and e.data['target'][0] == 'attr' and e.data['target'][2] == attr and
+                              e.data['value'].is_const() and e.data['value'].const is None for e in q.events)
+                          for q in ps):
+                reset_somewhere = True
+        if not reset_somewhere:
+            ok, why = False, ('the emitter is started only if self.%s is None, but the end of a connection does not '
+                              'reset it: after a reconnect no KEEPALIVE is sent' % attr)
+    rep.add('C15.c', 'RSocketClient._before_sender / an emitter for every connection', bs, ok and n > 0 and n_spawn > 0,
+            why or 'the keepalive send task is started on every path that is not closing (%d paths)' % n)
+
+
 def rule_plumbing(ctx):
     from . import plumbing
     plumbing.rule_sender_hooks(ctx, 'C15.b')
@@ -204,4 +252,4 @@ def rule_dispatch(ctx):
     dispatch.rule_routing(ctx, 'C01.e', only=['KeepAliveFrame'])
 
 
-RULES = [('C15.a', rule_a), ('C15.b', rule_b), ('C15.b', rule_plumbing), ('C01.e', rule_dispatch)]
+RULES = [('C15.a', rule_a), ('C15.b', rule_b), ('C15.c', rule_c), ('C15.b', rule_plumbing), ('C01.e', rule_dispatch)]
